@@ -1664,15 +1664,58 @@ func (r *Regex) UnmarshalText(text []byte) error {
 // contains any match of the regular expression re.
 func (r *Regex) MatchReader(reader io.RuneReader) bool {
 	// Read all runes into a string and match
-	var runes []rune
+	text, _ := readAllRunes(reader)
+	return r.MatchString(text)
+}
+
+// readAllRunes reads the stream to its end and returns the runes as a string.
+// Offsets in that string are offsets in the stream only as long as every rune is
+// reported with the width of its UTF-8 encoding; strings.Reader and bufio.Reader
+// deliver an invalid byte as U+FFFD with width 1. For such streams shifts lists,
+// for each of those runes, the offset in the string behind the rune and the number
+// of bytes by which the string is ahead of the stream from there on.
+func readAllRunes(reader io.RuneReader) (text string, shifts [][2]int) {
+	var sb strings.Builder
+	ahead := 0
 	for {
-		rn, _, err := reader.ReadRune()
+		rn, width, err := reader.ReadRune()
 		if err != nil {
 			break
 		}
-		runes = append(runes, rn)
+		n, _ := sb.WriteRune(rn)
+		if n != width {
+			ahead += n - width
+			shifts = append(shifts, [2]int{sb.Len(), ahead})
+		}
 	}
-	return r.MatchString(string(runes))
+	return sb.String(), shifts
+}
+
+// streamOffsets translates offsets in the text of readAllRunes into offsets in the
+// stream, in place; negative entries (no match) are kept.
+func streamOffsets(loc []int, shifts [][2]int) []int {
+	if len(shifts) == 0 {
+		return loc
+	}
+	for i, off := range loc {
+		if off < 0 {
+			continue
+		}
+		// the number of shifts at or before off (binary search)
+		lo, hi := 0, len(shifts)
+		for lo < hi {
+			mid := int(uint(lo+hi) >> 1)
+			if shifts[mid][0] <= off {
+				lo = mid + 1
+			} else {
+				hi = mid
+			}
+		}
+		if lo > 0 {
+			loc[i] = off - shifts[lo-1][1]
+		}
+	}
+	return loc
 }
 
 // FindReaderIndex returns a two-element slice of integers defining the
@@ -1682,15 +1725,8 @@ func (r *Regex) MatchReader(reader io.RuneReader) bool {
 // A return value of nil indicates no match.
 func (r *Regex) FindReaderIndex(reader io.RuneReader) []int {
 	// Read all runes into a string and find
-	var runes []rune
-	for {
-		rn, _, err := reader.ReadRune()
-		if err != nil {
-			break
-		}
-		runes = append(runes, rn)
-	}
-	return r.FindStringIndex(string(runes))
+	text, shifts := readAllRunes(reader)
+	return streamOffsets(r.FindStringIndex(text), shifts)
 }
 
 // FindReaderSubmatchIndex returns a slice holding the index pairs
@@ -1701,15 +1737,8 @@ func (r *Regex) FindReaderIndex(reader io.RuneReader) []int {
 // A return value of nil indicates no match.
 func (r *Regex) FindReaderSubmatchIndex(reader io.RuneReader) []int {
 	// Read all runes into a string and find
-	var runes []rune
-	for {
-		rn, _, err := reader.ReadRune()
-		if err != nil {
-			break
-		}
-		runes = append(runes, rn)
-	}
-	return r.FindStringSubmatchIndex(string(runes))
+	text, shifts := readAllRunes(reader)
+	return streamOffsets(r.FindStringSubmatchIndex(text), shifts)
 }
 
 // MatchReader reports whether the text returned by the RuneReader
